@@ -20,7 +20,7 @@ class RandomBehaviour:
     schedule (needed for C04; harmless elsewhere)."""
 
     def __init__(self, seed, tb_next=(1, 2, 3), ev_next=(None, None, 1, 2), p_event=0.6, p_future=0.2,
-                 future=(0, 1, 2), sparse_pers=False):
+                 future=(0, 1, 2), sparse_pers=False, p_none=0.0):
         self.seed = seed
         self.tb_next = tb_next
         self.ev_next = ev_next
@@ -28,6 +28,7 @@ class RandomBehaviour:
         self.p_future = p_future
         self.future = future
         self.sparse_pers = sparse_pers
+        self.p_none = p_none  # probability that a produced value is None (a legal value, not "no output")
 
     def meta(self, sid, typ):
         return S.meta_for(typ)
@@ -56,6 +57,11 @@ class RandomBehaviour:
                     any_pers = True
                 elif r.random() < self.p_event:
                     d[a] = tok(p.sid, p.k, a, eid)
+            if self.p_none:
+                rn = self.rng(p.sid, "none", p.k)
+                for a in sorted(d):
+                    if rn.random() < self.p_none:
+                        d[a] = None
             data[eid] = d
         if typ != "time-based" and not any_pers and r.random() < self.p_future:
             data["time"] = t + r.choice(self.future)
@@ -316,11 +322,12 @@ class RTBehaviour(RandomBehaviour):
     call set_event during their steps.  durations: list of multiples of K/2 (seconds) to draw from;
     events = {sid: {"p": probability, "offsets": [...]}} -> set_event(time + offset)."""
 
-    def __init__(self, seed, K=1.0, durations=(0,), events=None, **kw):
+    def __init__(self, seed, K=1.0, durations=(0,), events=None, no_self_steps=(), **kw):
         super().__init__(seed, **kw)
         self.K = K
         self.durations = durations
         self.events = events or {}
+        self.no_self_steps = set(no_self_steps)  # simulators that only step on (external) events
 
     def duration(self, ctx, p):
         r = self.rng(p.sid, "dur" + p.kind, p.k)
@@ -328,11 +335,40 @@ class RTBehaviour(RandomBehaviour):
 
     def reply(self, ctx, p):
         rep = super().reply(ctx, p)
+        if p.kind == "step" and p.sid in self.no_self_steps:
+            rep.value = None
         ev = self.events.get(p.sid)
         if p.kind == "step" and ev:
             r = self.rng(p.sid, "ev", p.k)
             if r.random() < ev.get("p", 0.5):
                 rep.calls.append(("set_event", p.args[0] + r.choice(ev.get("offsets", [1, 2]))))
+        return rep
+
+
+class FaultyRTBehaviour(RTBehaviour):
+    """A real-time run with ONE malformed reply (C13 in real-time mode): the faulting simulator may call
+    set_event in the very step whose reply is malformed, so a further step of it is already scheduled when
+    the reply is validated.  fault as for FaultyBehaviour plus "event": offset of the set_event call (0: none)."""
+
+    def __init__(self, seed, fault, **kw):
+        super().__init__(seed, **kw)
+        self.fault = fault
+
+    def reply(self, ctx, p):
+        f = self.fault
+        rep = super().reply(ctx, p)
+        if p.sid != f["sid"] or p.k != f["k"] or p.kind != f["req"]:
+            return rep
+        kind, arg = (list(f["how"]) + [None])[:2]
+        t = ctx.steptime[p.sid]
+        if p.kind == "step":
+            rep.value = {"rel": lambda: t + arg, "abs": lambda: arg, "list_rel": lambda: [t + arg], "none": lambda: None}[kind]()
+            if f.get("event"):
+                rep.calls = [c for c in rep.calls if c[0] != "set_event"] + [("set_event", t + f["event"])]
+        else:
+            data = rep.value
+            data.pop("time", None)
+            data["time"] = t + arg if kind == "time_rel" else arg
         return rep
 
 
